@@ -72,6 +72,25 @@ def fill(msg, rnd, full):
                 cs.add_new((0x0000, num), vr, val)
 
 
+def _repad_ae(raw):
+    """The same command group as a peer may legally have sent it: AE values with a leading
+    space, padded with spaces to 16 bytes; group length recomputed.  -> (bytes, changed?)"""
+    import struct
+    pos, out, changed = 0, [], False
+    while pos + 8 <= len(raw):
+        g, e, ln = struct.unpack_from('<HHI', raw, pos)
+        val = raw[pos + 8:pos + 8 + ln]
+        pos += 8 + ln
+        if (g, e) == (0, 0):
+            continue
+        if g == 0 and rc.CMD_VR.get(e) == 'AE' and val.strip():
+            val = (b' ' + val.strip())[:16].ljust(16)
+            changed = True
+        out.append(struct.pack('<HHI', g, e, len(val)) + val)
+    body = b''.join(out)
+    return struct.pack('<HHII', 0, 0, 4, len(body)) + body, changed
+
+
 def plan(rnd, max_len):
     """Seeded list of message specs for one association."""
     frag = max(1, max_len - 6)
@@ -162,6 +181,16 @@ def run(seed, local_max, peer_max, specs=None, timeout=3600, delivery='random', 
                     cls = dimsemessages.MESSAGE_TYPE[sp['cf']]
                     msg = cls()
                     fill(msg, rnd, sp['full'])
+                    if rnd.random() < 0.2:
+                        # a message that was RECEIVED and is passed on (forwarding application):
+                        # its command set comes out of the decoder, with the peer's legal but
+                        # not canonical encoding (AE titles padded to 16, leading space) in
+                        # elements nobody has looked at yet
+                        from pynetdicom2 import dsutils as _dsu
+                        raw_, padded = _repad_ae(_dsu.encode(msg.command_set, True, True))
+                        if padded:
+                            msg = cls(_dsu.decode(raw_, True, True))
+                            world.sim.bump('probe.received_message_passed_on')
                     if sp['data'] != 'none':
                         size = sp['size']
                         if sp.get('near') is not None and neg:
